@@ -160,6 +160,28 @@ theorem invOrd_ctlTakeResp {cfg : PipeCfg} (hm : cfg.headMatch = true) (hso : cf
       refine ⟨h.core.sentOids, h.core.le, h.core.inc, ?_⟩
       exact pairwise_insertBy _ h.core.outSorted hnot
 
+/-- the drain loop of the repaired `fini` branch keeps the ordering invariant and empties both channels -/
+theorem invOrd_drainState {cfg : PipeCfg} (hm : cfg.headMatch = true) (hso : cfg.sortOutgoing = true)
+    {s : State} (hl : InvLoc s) (h : InvOrd s) : InvOrd (drainState cfg s) := by
+  apply invOrd_applySend hm
+  have hnd : (locs s).Nodup := hl.cnt.nodup_iff.mpr List.nodup_range'
+  have hnd2 : ((s.outgoing ++ s.respInbox).map Resp.oid).Nodup := by
+    simp only [locs, List.map_append, List.append_assoc] at hnd
+    have := (List.nodup_append.mp hnd).2.1
+    rw [← List.append_assoc] at this
+    have := (List.nodup_append.mp this).1
+    simpa using this
+  refine ⟨h.core.sentOids, h.core.le, ?_, ?_⟩
+  · show ((s.reqInbox.foldl (fun acc r => if cfg.sortIncoming = true then insertBy OReq.oid r acc else acc ++ [r])
+        s.incoming) ++ []).map OReq.oid = _
+    rw [List.append_nil, foldl_add_eq_append]
+    · exact h.core.inc
+    · rw [h.core.inc]; exact List.pairwise_lt_range'
+  · show ((s.respInbox.foldl (fun acc p => if cfg.sortOutgoing = true then insertBy Resp.oid p acc else acc ++ [p])
+        s.outgoing).map Resp.oid).Pairwise _
+    simp only [hso, ↓reduceIte]
+    exact pairwise_foldl_insert Resp.oid _ _ h.core.outSorted hnd2
+
 theorem invOrd_step {cfg : PipeCfg} (hreg : cfg.registerBeforeHandoff = true) (hm : cfg.headMatch = true)
     (hso : cfg.sortOutgoing = true) {s s' : State} {a : Action}
     (hl : InvLoc s) (h : InvOrd s) (hs : step cfg s a = some s') : InvOrd s' := by
@@ -218,7 +240,10 @@ theorem invOrd_step {cfg : PipeCfg} (hreg : cfg.registerBeforeHandoff = true) (h
   | ctlFini =>
     simp only [ctlFiniStep] at hs
     split at hs
-    · simp only [Option.some.injEq] at hs; subst hs; exact h.frame rfl rfl rfl rfl rfl
+    · split at hs
+      · simp only [Option.some.injEq] at hs; subst hs
+        exact (invOrd_drainState hm hso hl h).frame rfl rfl rfl rfl rfl
+      · simp only [Option.some.injEq] at hs; subst hs; exact h.frame rfl rfl rfl rfl rfl
     · simp at hs
 
 theorem inv_run {cfg : PipeCfg} (hreg : cfg.registerBeforeHandoff = true) (hm : cfg.headMatch = true)
